@@ -217,7 +217,11 @@ def gen_valid(chk):
         for (idx, bit) in enumerate(bg.PRIMARY_FLAGS):
             if bits >> idx & 1:
                 flags |= bit
-        cases.append(('flags', bg.gen_bundle(rng, flags=flags, n_ext=rng.choice([0, 0, 0, 1]), payload_sizes=(0, 1, 5), eid_kinds=('none', 'ipn', 'dtn'), **safe)))
+        # quick tier: the oracle runs on all 512 subsets; the model is evaluated on the 128 of them that contain
+        # every combination of IS_FRAGMENT / PAYLOAD_ADMIN (the only flag bits the codec looks at) with 32 of the rest
+        label = 'flags' if (not chk.quick() or (bits >> 2) % 4 == 0) else 'flags(oracle only)'
+        cases.append((label, bg.gen_bundle(rng, flags=flags, n_ext=rng.choice([0, 0, 0, 1]), payload_sizes=(0, 1, 5),
+                                           eid_kinds=('none', 'ipn', 'dtn'), **safe)))
     # every combination of CRC types over primary / extension / payload
     for combo in itertools.product([0, 1, 2], repeat=3):
         for admin in (False, True):
@@ -549,6 +553,9 @@ def run_streams(chk, cases, pending, shared):
             if got.startswith('raise:'):
                 return '(@nil N)'
             return 'raw' if got == raw_hex else coq_octets(bytes.fromhex(got))
+        if label.endswith('(oracle only)'):
+            terms.append('(@nil N)')
+            continue
         terms.append('(let raw := %s in let b := %s in run_case (b, raw, (%s, %s), (%s, %s)))' % (
             bg.coq_encoded(spec), bg.coq_bundle(spec), lit(obs['enc'][0]), lit(obs['enc'][1]), db, dr))
     shared['impl'] = impl
@@ -556,7 +563,7 @@ def run_streams(chk, cases, pending, shared):
     both = yield terms
     bad_enc = []
     bad_dec = []
-    for ((label, spec), obs, (eflags, ediag, mdec)) in zip(cases, impl, both):
+    for ((label, spec), obs, mres) in zip(cases, impl, both):
         ident = hashlib.sha1(json.dumps(bg.strip_views(spec), sort_keys=True).encode()).hexdigest()
         chk.case(ident, nontrivial=nontrivial(spec),
                  sample=dict(stream=label, spec=bg.strip_views(spec), octets=obs['raw'].hex()) if len(obs['raw']) < 200 else None)
@@ -574,6 +581,10 @@ def run_streams(chk, cases, pending, shared):
             sig = classify(spec) or ('C02 / %s of a well-formed bundle (%s)' % (probs[0][0], label.split(':')[0]))
             what = '%s [%s]' % (probs[0][1], '; '.join(kind for (kind, _t) in probs))
             report(chk, pending, sig, what, dict(kind='spec', spec=spec))
+        if label.endswith('(oracle only)'):
+            continue
+        chk.count('model_evaluated_cases')
+        (eflags, ediag, mdec) = mres
         # --- model vs implementation: encoder
         (eq_given, eq_updated, crc_same, m_wf, m_guard, _m_rfc_admin, _m_extra) = eflags
         typed = any((blk.get('view') or {}).get('kind') in ('prev_node', 'age', 'hop', 'admin') for blk in spec['blocks'])
